@@ -120,6 +120,8 @@ QUERIES = [
     # the same text parsed with an explicit case_sensitive argument and with the registry's default (one parse cache serves both)
     ("parseU", "Meter", "ci"), ("parseU", "Meter", "default"), ("parseU", "KiloMeter / Second", "ci"), ("parseU", "KiloMeter / Second", "default"),
     ("parseU", "degF / second", "default"), ("parseU", "degF / second", "nodelta"),
+    ("parseU", "kiloMETER", "ci"), ("parseU", "kiloMETER", "default"), ("parseU", "kHZ", "ci"), ("parseU", "kHZ", "default"), ("name", "kHZ"), ("nameCI", "kHZ"),
+    ("contains", "kHZ"), ("contains", "kiloMETER"),
     # listings restricted to a group / a system, and unrestricted (one cached set per dimensionality serves all)
     ("compatG", "meter", "USCSLengthInternational"), ("compatG", "meter", "imperial"), ("compatG", "gram", "AvoirdupoisUS"), ("compatG", "meter", "root"),
     # base units under an explicitly named system, whatever the default system is
@@ -186,6 +188,10 @@ def ask(u, q):
                 return digest(u.Quantity(12345.0, q[1]).to_compact())
             if k == "name":
                 return u.get_name(q[1])
+            if k == "nameCI":
+                return u.get_name(q[1], case_sensitive=False)
+            if k == "contains":
+                return q[1] in u
     except CaseTimeout:
         return "TIMEOUT"
     except Exception as e:
